@@ -719,3 +719,141 @@ def check_c05(args):
         "queries_validated_by_tlc": len(qcases), "known_findings_seen": sorted(v.seen_known)},
         ASSUME, time.time() - t0, len(v.violations))
     return rc
+
+
+# =========================================================================== C11 physical operators
+def op_kinds(plan_text):
+    return sorted(set(re.findall(r"\((hashjoin|mergejoin|join|hashagg|sortagg|agg|topn|order|limit)\b", plan_text)))
+
+
+def c11_cases(seed, n):
+    """Join / aggregation / top-n queries whose physical implementation differs between the unoptimized
+    plan (nested-loop join, order + limit), the optimized plan (hash join, hash aggregation, top-n) and
+    the optimized plan on primary-key tables of the disk engine (merge join, sort aggregation)."""
+    rnd = random.Random(seed)
+    feats = dict(ENVELOPE, subq=(), jts=("inner", "inner", "left"), on=("eq",), like=False)
+    out = []
+    for i in range(n):
+        g = G.Gen(rnd, feat=feats)
+        db = g.database()
+        pk = i % 2 == 0
+        if pk:
+            for t in db:
+                seen = set()
+                rows = []
+                for row in db[t]:
+                    if row[0] is None or row[0] in seen:
+                        row[0] = next(x for x in range(0, 50) if x not in seen)
+                    seen.add(row[0])
+                    rows.append(row)
+                db[t] = rows
+        kind = i % 3
+        if kind == 0:          # join on the first column (merge join when both sides are key-ordered)
+            t1, t2 = rnd.choice(list(G.TABLES)), rnd.choice(list(G.TABLES))
+            jt = rnd.choice(["inner", "inner", "left"])
+            keycol = "a" if rnd.random() < 0.7 else "b"
+            on = ("bin", "=", ("col", "x1", keycol, G.INT), ("col", "x2", "a", G.INT), G.BOOL)
+            if rnd.random() < 0.3:
+                on2 = ("bin", "=", ("col", "x1", "b", G.INT), ("col", "x2", "b", G.INT), G.BOOL)
+                on = ("bin", "and", on, on2, G.BOOL)
+            frm = ("join", jt, ("t", t1, "x1"), ("t", t2, "x2"), on)
+            scope = [("x1", c, ty) for c, ty in G.TABLES[t1]] + [("x2", c, ty) for c, ty in G.TABLES[t2]]
+            sel = [(("col", a, c, ty), f"c{k + 1}") for k, (a, c, ty) in enumerate(scope)]
+            q = dict(sel=sel, frm=frm, where=None, grp=[], hav=None, agg=False, dist=False, ord=[], lim=-1, off=0)
+            if rnd.random() < 0.4 and jt == "inner":
+                q["where"] = g.bool_expr(scope, None, 1)
+        elif kind == 1:        # aggregation grouped by the key column (sort aggregation on key order)
+            t1 = rnd.choice(list(G.TABLES))
+            scope = [("x1", c, ty) for c, ty in G.TABLES[t1]]
+            gcol = ("col", "x1", "a" if rnd.random() < 0.6 else "b", G.INT)
+            aggs = [g.agg_expr(scope) for _ in range(rnd.choice([1, 2, 3]))]
+            ngroup = rnd.random() < 0.8
+            sel = ([gcol] if ngroup else []) + aggs
+            q = dict(sel=[(e, f"c{k + 1}") for k, e in enumerate(sel)], frm=("t", t1, "x1"), where=None,
+                     grp=[gcol] if ngroup else [], hav=None, agg=True, dist=False, ord=[], lim=-1, off=0)
+        else:                  # ORDER BY + LIMIT (order then limit unoptimized, top-n optimized)
+            t1 = rnd.choice(list(G.TABLES))
+            scope = [("x1", c, ty) for c, ty in G.TABLES[t1]]
+            sel = [(("col", a, c, ty), f"c{k + 1}") for k, (a, c, ty) in enumerate(scope)]
+            idx = list(range(len(sel)))
+            rnd.shuffle(idx)
+            q = dict(sel=sel, frm=("t", t1, "x1"), where=None, grp=[], hav=None, agg=False, dist=False,
+                     ord=[(j, rnd.choice(["asc", "desc"])) for j in idx[:rnd.choice([1, 2])]],
+                     lim=rnd.choice([0, 1, 2, 3, -1]), off=rnd.choice([0, 0, 1, 2]))
+        out.append({"db": db, "q": q, "sql": G.sql_query(q), "pk": pk})
+    return out
+
+
+def check_c11(args):
+    t0 = time.time()
+    seed, tier = seed_tier(args)
+    build()
+    v = Verdict("C11")
+    n = 1500 if tier == "thorough" else 180
+    cases = c11_cases(seed * 83 + 6, n)
+    # larger inputs (many chunks) by replication: every row k times scales every bag in closed form
+    runs, labels = to_run_cases(cases)
+    # ask for the plans too: which implementation each configuration used
+    for run in runs:
+        i = int(run["id"].split(".")[0])
+        for st in run["steps"]:
+            if st.get("sql") == cases[i]["sql"]:
+                st["plans"] = [{"disk": run["engine"] == "disk", "mock": {}}]
+                break
+    outs = run_sharded("sql", runs, tag="c11", timeout=3300, case_timeout=30)
+    collect(cases, runs, labels, outs)
+    validate(cases, "c11")
+    agree = oracle_selfcheck(cases)
+    impl = {}
+    for run, lab, out in zip(runs, labels, outs):
+        if out.get("hang") or "fatal" in out:
+            continue
+        r = out["res"][lab[0][0]]
+        pl = (r.get("plans") or [{}])[0]
+        if "opt" in pl:
+            for k in op_kinds(pl["opt"]):
+                impl[f"{run['engine']}.on:{k}"] = impl.get(f"{run['engine']}.on:{k}", 0) + 1
+            for k in op_kinds(pl["bound"]):
+                impl[f"{run['engine']}.off:{k}"] = impl.get(f"{run['engine']}.off:{k}", 0) + 1
+    stats = {"observations": 0, "nontrivial": set(), "disagreements_checked": 0, "errors": {}}
+    for c in cases:
+        info = {"sql": c["sql"], "db": c["db"], "pk": c["pk"], "expected": c["expected"]}
+        oks = {l: c["match"][l] for l, o in c["obs"].items() if "rows" in o}
+        stats["observations"] += len(oks)
+        if c["expected"]:
+            stats["nontrivial"].add(c["sql"])
+        if oks and not all(oks.values()):
+            stats["disagreements_checked"] += 1
+            bad = [l for l, ok in oks.items() if not ok]
+            good = [l for l, ok in oks.items() if ok]
+            v.violation(dict(info, disagree=bad, agree_with_semantics=good,
+                             observed={l: c["obs"][l]["rows"][:8] for l in bad}),
+                        f"{c['sql']}: configurations {bad} return {c['obs'][bad[0]]['rows'][:6]}, "
+                        f"{good or 'the semantics'} give {c['expected'][:6]}")
+        for l, o in c["obs"].items():
+            if "err" in o and not l.endswith(".off") and not str(o["err"]).startswith("bind error"):
+                v.violation(dict(info, config=l, error=o), f"[{l}] {c['sql']} failed: {o['err'][:120]}")
+    # vacuity: the implementations the property is about must all have been used
+    need = ["mem.on:hashjoin", "disk.on:mergejoin", "mem.off:join", "mem.on:hashagg", "disk.on:sortagg", "mem.on:topn", "mem.off:order"]
+    missing = [k for k in need if impl.get(k, 0) == 0]
+    if missing:
+        raise ToolError(f"C11 is vacuous: operator implementations never planned: {missing} (seen {impl})")
+    import sqlknown
+    sqlknown.run_repros(v, "C11")
+    rc = v.finish()
+    write_evidence("C11", tier, seed, "exploration", {
+        "evaluations": stats["observations"], "distinct_nontrivial": len(stats["nontrivial"]),
+        "rule": "equi-joins (inner / left, 1-2 keys incl. NULL and duplicate keys, empty sides, optional residual "
+                "filter), grouped and global aggregations (COUNT/SUM/MIN/MAX/COUNT DISTINCT) and ORDER BY + "
+                "LIMIT/OFFSET, each executed by the unoptimized plan (nested-loop join, simple/hash aggregation, "
+                "order + limit), the optimized plan (hash join, hash aggregation, top-n), the optimized plan on "
+                "primary-key tables of the disk engine (merge join, sort aggregation) and under two mocked "
+                "statistics; all results validated by TLC against SqlSem.tla, so agreement with the semantics "
+                "implies mutual agreement; the plans are recorded to prove which implementation ran",
+        "samples": [{"sql": c["sql"], "pk": c["pk"]} for c in cases[:3]],
+        "implementations_planned": impl, "disagreements_checked": stats["disagreements_checked"],
+        "oracle_agreement_with_sqlite": agree, "known_findings_seen": sorted(v.seen_known)},
+        ASSUME + ["RIGHT / FULL / SEMI / ANTI joins are not compared: right/full are recorded as broken (Q1), semi/anti "
+                  "only arise from subqueries (Q3, Q8)", "keys of different integer widths are not generated"],
+        time.time() - t0, len(v.violations))
+    return rc
